@@ -104,6 +104,7 @@ type batchRes struct {
 	Lowfree    int64            `json:"lf"`
 	Rebuilds   int              `json:"rb"`
 	Harness    string           `json:"h,omitempty"`
+	Skipped    bool             `json:"skipped,omitempty"` // the run's budget was used up before this case started
 	Sample     *sampleRec       `json:"s,omitempty"`
 }
 
@@ -165,6 +166,10 @@ func childMain() {
 	if err != nil {
 		fw.Fatalf("child world: %v", err)
 	}
+	// fw.Supervise polls its Stop callback only when it (re)starts a worker, so the budget is also
+	// enforced here: past the deadline every remaining case answers "skipped" immediately.
+	deadline, _ := strconv.ParseInt(os.Getenv("VERIF_C15_DEADLINE"), 10, 64)
+	expired := func() bool { return deadline > 0 && time.Now().UnixNano() > deadline }
 	enc := func(br *batchRes) string {
 		br.Rebuilds = w.rebuilds
 		w.rebuilds = 0
@@ -177,6 +182,9 @@ func childMain() {
 		fw.ChildLoop(func(i int) string {
 			b := pl.batches[i]
 			br := &batchRes{}
+			if expired() {
+				return `{"skipped":true}`
+			}
 			for k := b.lo; k < b.hi; k++ {
 				c := pl.caseOf(b, k)
 				br.add(c, w.runCase(c))
@@ -189,6 +197,9 @@ func childMain() {
 		fw.ChildLoop(func(i int) string {
 			c := singles[i]
 			br := &batchRes{}
+			if expired() {
+				return `{"skipped":true}`
+			}
 			br.add(c, w.runCase(c))
 			return enc(br)
 		})
@@ -338,7 +349,8 @@ func main() {
 		fw.Fatalf(format, a...)
 	}
 	pl := buildPlan(run.Tier)
-	env := []string{"VERIF_C15_BASE=" + base, "VERIF_C15_TIER=" + run.Tier}
+	env := []string{"VERIF_C15_BASE=" + base, "VERIF_C15_TIER=" + run.Tier, "VERIF_C15_DEADLINE=" + strconv.FormatInt(run.Deadline.UnixNano(), 10)}
+	skipped := 0
 	workers := runtime.NumCPU()
 	if workers > 16 {
 		workers = 16
@@ -367,6 +379,11 @@ func main() {
 			}
 			if br.Harness != "" {
 				fatal("batch %d: %s", i, br.Harness)
+			}
+			if br.Skipped {
+				skipped++
+				run.Capped("budget")
+				return
 			}
 			b := pl.batches[i]
 			a.merge(i, b.eng+"/"+stateName[b.st], &br)
@@ -411,6 +428,11 @@ func main() {
 				}
 				if br.Harness != "" {
 					fatal("single %d: %s", i, br.Harness)
+				}
+				if br.Skipped {
+					skipped++
+					run.Capped("budget")
+					return
 				}
 				a.merge(-1, slice, &br)
 			})
@@ -485,7 +507,7 @@ func main() {
 			"per_function": perFn, "calls_per_engine_state": a.perSlice, "calls_that_changed_guest_memory": a.memChanged,
 			"lowest_free_followup_checked": a.lowfree, "host_dir_rebuilds": a.rebuilds,
 			"max_host_alloc_bytes_in_surviving_call": a.maxAlloc, "max_host_alloc_case": a.maxCase,
-			"batches": len(pl.batches), "batches_whose_worker_died": len(crashed), "calls_rerun_one_per_process_slot": len(singles),
+			"batches": len(pl.batches), "cases_skipped_after_budget": skipped, "batches_whose_worker_died": len(crashed), "calls_rerun_one_per_process_slot": len(singles),
 			"calls_that_killed_the_worker": a.crashCases, "phase_wall_s": map[string]float64{"batches": wallA, "singles": wallB},
 		},
 	}, []string{
